@@ -788,6 +788,10 @@ impl Optimizer {
         match op {
             LogicalOperator::NodeScan(scan) => {
                 vars.insert(scan.variable.clone());
+                // A scan chained onto an earlier pattern also outputs that pattern's variables
+                if let Some(input) = &scan.input {
+                    Self::collect_output_variables_recursive(input, vars);
+                }
             }
             LogicalOperator::EdgeScan(scan) => {
                 vars.insert(scan.variable.clone());
